@@ -277,6 +277,12 @@ impl CheckCtx {
     /// Everything that is accumulated is order-independent, so the result does not depend on
     /// the worker count.
     pub fn run<S: Scenario>(&mut self, runs: u64) {
+        // development aid: PDSIM_ONLY=<substring> restricts a check to the scenarios whose name matches
+        if let Ok(only) = std::env::var("PDSIM_ONLY") {
+            if !S::NAME.contains(&only) {
+                return;
+            }
+        }
         let t0 = Instant::now();
         let next = AtomicU64::new(0);
         let prop = self.prop;
